@@ -779,3 +779,119 @@ def session_lifecycle(ctx, chk, rule):
                     where=f'{f.module.relpath}:{n.lineno}')
     if not bad:
         chk.ok(rule, cont.qualname, f'{len(news)} binding(s), {len(resets)} reset(s) of the cached session', detail='bound only to get_session(index path); closed before every reset')
+
+
+ONE_SHOT_BUILTINS = {'iter', 'map', 'filter', 'zip', 'enumerate', 'reversed', 'os.scandir', 'itertools.chain', 'itertools.islice', 'os.walk', 'glob.iglob'}
+CONSUMERS = {'list', 'set', 'sorted', 'tuple', 'sum', 'max', 'min', 'dict', 'frozenset', 'any', 'all', 'next', 'len'}
+
+
+def _returns_one_shot(prog, f, depth=0):
+    """f is a generator function, or returns iter(...)/a generator expression/another one-shot function's result."""
+    if f.is_generator:
+        return True
+    if depth > 2:
+        return False
+    rets = [r for r in walk_local(f.node) if isinstance(r, ast.Return) and r.value is not None]
+    for r in rets:
+        v = r.value
+        if isinstance(v, ast.GeneratorExp):
+            return True
+        if isinstance(v, ast.Call) and norm(v.func) in ONE_SHOT_BUILTINS:
+            return True
+    return False
+
+
+def one_shot_reuse(ctx, chk, rule, fns, label='operation'):
+    """A local bound to a one-shot iterable (call of a generator function of the package, generator expression, iter/map/filter/zip...) is
+    consumed at most once: not inside a loop that the binding precedes (it would be empty from the second iteration on), and not at two sites
+    of the same path."""
+    prog, K = ctx.prog, ctx.kinds
+    nvars = 0
+    bad = 0
+    for f in fns:
+        if isinstance(f.node, ast.Lambda):
+            continue
+        fr = K.top_frame(f)
+        binds = {}
+        for n in walk_local(f.node):
+            if isinstance(n, ast.Assign) and len(n.targets) == 1 and isinstance(n.targets[0], ast.Name):
+                v = n.value
+                one = isinstance(v, ast.GeneratorExp)
+                if isinstance(v, ast.Call):
+                    if norm(v.func) in ONE_SHOT_BUILTINS:
+                        one = True
+                    else:
+                        try:
+                            cal = K.resolve_call(v, fr)
+                        except Exception:
+                            cal = None
+                        if cal is not None and cal.kind == 'internal' and _returns_one_shot(prog, cal.target):
+                            one = True
+                binds.setdefault(n.targets[0].id, []).append((n, one))
+        for name, bl in binds.items():
+            if not all(one for _, one in bl):
+                continue  # also bound to something re-iterable somewhere: undecided, skip
+            nvars += 1
+            uses = []
+            for n in walk_local(f.node):
+                if isinstance(n, ast.Name) and n.id == name and isinstance(n.ctx, ast.Load):
+                    par = getattr(n, '_parent', None)
+                    consuming = False
+                    if isinstance(par, (ast.For, ast.comprehension)) and par.iter is n:
+                        consuming = True
+                    elif isinstance(par, ast.Call) and n in par.args and norm(par.func) not in ('next', 'itertools.islice', 'islice', 'isinstance', 'id', 'type', 'bool', 'iter'):
+                        consuming = True   # handed to a function: assume it iterates it (next()/islice() advance it step by step: the intended use)
+                    elif isinstance(par, ast.Compare) and n in par.comparators and any(isinstance(o, (ast.In, ast.NotIn)) for o in par.ops):
+                        consuming = True
+                    elif isinstance(par, ast.Starred):
+                        consuming = True
+                    elif isinstance(par, (ast.YieldFrom,)):
+                        consuming = True
+                    if consuming:
+                        uses.append(n)
+            for u in uses:
+                # innermost enclosing loop / comprehension of the use that does not contain a (re)binding of the name
+                a = getattr(u, '_parent', None)
+                child = u
+                hit = None
+                while a is not None and a is not f.node:
+                    in_body = False
+                    if isinstance(a, (ast.For, ast.While)):
+                        in_body = any(child is x or any(child is y for y in ast.walk(x)) for x in a.body + a.orelse) or (isinstance(a, ast.While) and (child is a.test or any(child is y for y in ast.walk(a.test))))
+                    elif isinstance(a, (ast.ListComp, ast.SetComp, ast.DictComp, ast.GeneratorExp)):
+                        # evaluated once per element of the comprehension unless it is the first iterable
+                        in_body = not (a.generators and (a.generators[0].iter is child or any(child is y for y in ast.walk(a.generators[0].iter))))
+                    if in_body and not any(b is x or any(b is y for y in ast.walk(x)) for b, _ in bl for x in ([a] if not isinstance(a, (ast.For, ast.While)) else a.body + a.orelse)):
+                        hit = a
+                        break
+                    child = a
+                    a = getattr(a, '_parent', None)
+                if hit is not None:
+                    bad += 1
+                    chk.bad(rule, f.qualname, f'`{name}` consumed at line {u.lineno} inside the loop at line {hit.lineno}', f'`{name}` is a one-shot iterable (generator) bound once before the loop at line '
+                            f'{hit.lineno} but consumed in every iteration: from the second iteration on it is empty, so the {label} silently handles only the first element correctly',
+                            where=f'{f.module.relpath}:{u.lineno}')
+            if len(uses) >= 2 and not bad:
+                # two consumptions on one path (not in different arms of the same if)
+                def arms(n):
+                    out = []
+                    a, child = getattr(n, '_parent', None), n
+                    while a is not None and a is not f.node:
+                        if isinstance(a, ast.If):
+                            out.append((id(a), 'body' if any(child is x or any(child is y for y in ast.walk(x)) for x in a.body) else 'orelse'))
+                        child, a = a, getattr(a, '_parent', None)
+                    return dict(out)
+                for i in range(len(uses)):
+                    for j in range(i + 1, len(uses)):
+                        ai, aj = arms(uses[i]), arms(uses[j])
+                        if any(k in aj and aj[k] != v for k, v in ai.items()):
+                            continue
+                        # a rebinding between the two uses resets the iterable
+                        if any(uses[i].lineno < b.lineno <= uses[j].lineno for b, _ in bl):
+                            continue
+                        bad += 1
+                        chk.bad(rule, f.qualname, f'`{name}` consumed at lines {uses[i].lineno} and {uses[j].lineno}', f'`{name}` is a one-shot iterable (generator) consumed twice on the same path: the '
+                                f'second consumer sees nothing', where=f'{f.module.relpath}:{uses[j].lineno}')
+    if not bad:
+        chk.ok(rule, '<functions>', f'{nvars} local(s) bound to one-shot iterables in {len(fns)} function(s)', detail='each consumed once, never inside a loop the binding precedes', evals=nvars)
+    return nvars
